@@ -448,6 +448,12 @@ def gen_o_segment(rng, n):
                "s": [rng.choice([-1, 1]) * rng.uniform(0.3, 3) for _ in range(2)]}
 
 
+def _ends_err(pts, e):
+    """distance between the two ends of the sampled arc and the two endpoints, as unordered pairs"""
+    p0, p1, e0, e1 = np.array(pts[0]), np.array(pts[-1]), np.array(e[0]), np.array(e[1])
+    return float(min(max(np.abs(p0 - e0).max(), np.abs(p1 - e1).max()), max(np.abs(p0 - e1).max(), np.abs(p1 - e0).max())))
+
+
 def _arc_points(c, r, th, cnt=7):
     t0, t1 = th
     while t1 < t0:
@@ -492,8 +498,7 @@ def run_o_segment(inp):
         out["deg_rad"] = float(np.max(np.abs(thd * math.pi / 180 - thr)))
         pts, extent = _arc_points(np.array(cr, dtype=float), float(rr), thr)
         out["extent"] = float(extent)
-        ends = sorted([pts[0].tolist(), pts[-1].tolist()])
-        out["arc_ends"] = float(np.max(np.abs(np.array(ends) - np.array(sorted(e.tolist())))))
+        out["arc_ends"] = _ends_err(pts, e)
         if model == "poincare":
             out["inside"] = float(max(np.linalg.norm(p) for p in pts) - 1)
         else:
@@ -585,7 +590,7 @@ def run_o_horo(inp):
             pts, extent = _arc_points(ac, ar, th, 9)
             e = np.array(arc.endpoint_coords(model), dtype=float)
             ic = np.array(H.Point(c.proj_data.copy()).coords(model), dtype=float)
-            out["arc_" + model] = {"ends": float(np.max(np.abs(np.array(sorted([pts[0].tolist(), pts[-1].tolist()])) - np.array(sorted(e.tolist()))))),
+            out["arc_" + model] = {"ends": _ends_err(pts, e),
                                    "min_to_ideal": float(min(np.linalg.norm(p - ic) for p in pts)),
                                    "end_to_ideal": float(min(np.linalg.norm(x - ic) for x in e)), "rad": ar}
     return out
@@ -739,7 +744,7 @@ def run_o_composite(inp):
             if dim == 2:
                 pts, extent = _arc_points(c[j], float(r[j]), th[j])
                 rec["extent"] = float(extent)
-                rec["arc_ends"] = float(np.max(np.abs(np.array(sorted([pts[0].tolist(), pts[-1].tolist()])) - np.array(sorted(e[j].tolist())))))
+                rec["arc_ends"] = _ends_err(pts, e[j])
                 rec["inside"] = float(max(np.linalg.norm(q) for q in pts) - 1) if model == "poincare" else float(-min(q[1] for q in pts))
                 if inp["kind"] == "segment":
                     A, B = H.Point(flatU[j, 0].copy(), model="klein"), H.Point(flatU[j, 1].copy(), model="klein")
@@ -773,6 +778,316 @@ def judge_o_composite(inp, obs, lr):
     return None
 
 
+# ---- polygons: circle parameters of a polygon are those of its edge segments, and describe the edges ---------------
+def gen_o_polygon(rng, n):
+    for _ in range(n):
+        nv = rng.randint(3, 7)
+        shape = rng.choice([[], [], [2], [3]])
+        cnt = int(np.prod(shape)) if shape else 1
+        polys = []
+        for _ in range(cnt):
+            if rng.random() < 0.3:
+                # regular polygon moved by an isometry
+                polys.append({"regular": True, "angle": rng.uniform(0.1, 0.9) * (nv - 2) * math.pi / nv, "g": G.float_iso(rng, 2).tolist()})
+            else:
+                # star-shaped polygon: vertices at increasing angles around a centre
+                ctr = np.array(G.fball(rng, 2, 0.4))
+                angs = sorted(rng.uniform(0, 2 * math.pi) for _ in range(nv))
+                while min(np.diff(angs + [angs[0] + 2 * math.pi])) < 0.25:
+                    angs = sorted(rng.uniform(0, 2 * math.pi) for _ in range(nv))
+                polys.append({"regular": False, "klein": [(ctr + rng.uniform(0.15, 0.5) * np.array([math.cos(a), math.sin(a)])).tolist() for a in angs]})
+        yield {"nv": nv, "shape": shape, "polys": polys, "model": rng.choice(["poincare", "halfspace"]),
+               "degrees": rng.random() < 0.5, "flatten": rng.random() < 0.4}
+
+
+def run_o_polygon(inp):
+    nv, shape = inp["nv"], tuple(inp["shape"])
+    data = []
+    for pdesc in inp["polys"]:
+        if pdesc["regular"]:
+            P = H.Polygon.regular_polygon(nv, angle=pdesc["angle"])
+            data.append(np.array((H.Isometry(np.array(pdesc["g"])) @ P.get_vertices()).proj_data, dtype=float))
+        else:
+            data.append(np.array(H.Point(np.array(pdesc["klein"]), model="klein").proj_data, dtype=float))
+    V = np.array(data).reshape(shape + (nv, 3))
+    poly = H.Polygon(V.copy())
+    model = inp["model"]
+    c, r, th = poly.circle_parameters(degrees=inp["degrees"], model=model, flatten=inp["flatten"])
+    ce, re_, the = H.Polygon(V.copy()).get_edges().circle_parameters(degrees=inp["degrees"], model=model)
+    c, r, th = np.array(c, dtype=float), np.array(r, dtype=float), np.array(th, dtype=float)
+    want_shape = ((int(np.prod(shape)) if shape else 1) * nv,) if inp["flatten"] else shape + (nv,)
+    out = {"shape_ok": list(r.shape) == list(want_shape), "shapes": [list(c.shape), list(r.shape), list(th.shape)]}
+    if not out["shape_ok"]:
+        return out
+    c, r, th = c.reshape((-1, 2)), r.reshape(-1), th.reshape((-1, 2)) * (math.pi / 180 if inp["degrees"] else 1.0)
+    out["edges_same"] = float(max(np.abs(c - np.array(ce, dtype=float).reshape((-1, 2))).max(), np.abs(r - np.array(re_, dtype=float).reshape(-1)).max()))
+    Vf = V.reshape((-1, nv, 3))
+    worst = {"ends": 0.0, "inside": -1.0, "on_segment": 0.0, "rmax": float(np.max(r))}
+    j = 0
+    for poly_v in Vf:
+        for i in range(nv):
+            A, B = H.Point(poly_v[i].copy()), H.Point(poly_v[(i + 1) % nv].copy())
+            e = np.array([np.array(A.coords(model), dtype=float), np.array(B.coords(model), dtype=float)])
+            pts, extent = _arc_points(c[j], float(r[j]), th[j])
+            scale = (1 + r[j]) * (1 + np.abs(c[j]).max())
+            worst["ends"] = max(worst["ends"], _ends_err(pts, e) / scale)
+            ins = (max(np.linalg.norm(q) for q in pts) - 1) if model == "poincare" else -min(q[1] for q in pts)
+            worst["inside"] = max(worst["inside"], float(ins) / scale)
+            tot = _d(A, B)
+            worst["on_segment"] = max(worst["on_segment"], max(abs(_d(A, H.Point(q, model=model)) + _d(H.Point(q, model=model), B) - tot) for q in pts[1:-1]) / (scale * (1 + tot)))
+            j += 1
+    out.update(worst)
+    return out
+
+
+def judge_o_polygon(inp, obs, lr):
+    tags = {"nv": inp["nv"], "model": inp["model"], "flatten": inp["flatten"], "composite": bool(inp["shape"]), "call_site": "Polygon.circle_parameters"}
+    if "exc" in obs:
+        return {"expected": "circle parameters of the edges", "observed": obs, "tags": dict(tags, exc=obs["exc"])}
+    if not obs["shape_ok"]:
+        return {"expected": "one circle per edge (flattened to one axis when flatten=True)", "observed": obs["shapes"], "tags": dict(tags, what="shape")}
+    if inp["model"] == "halfspace" and obs["rmax"] > 50:
+        return None      # an edge's geodesic passes close to the half-space point at infinity: outside the property's quantifier
+    if not obs["edges_same"] <= 1e-9:
+        return {"expected": "polygon circle parameters = those of its edge segments", "observed": obs["edges_same"], "tags": dict(tags, what="edges")}
+    if not (obs["ends"] <= 1e-5 and obs["inside"] <= 1e-5 and obs["on_segment"] <= 1e-5):
+        return {"expected": "every edge: arc between consecutive vertices, inside the model, on the hyperbolic segment", "observed": obs, "tags": dict(tags, what="arc")}
+    return None
+
+
+# ---- composite horospheres and horosphere arcs -------------------------------------------------------------------
+def gen_o_horo_comp(rng, n):
+    for _ in range(n):
+        dim = rng.choice([2, 2, 3, 4])
+        k = rng.choice([2, 3, dim, dim + 1, 5])
+        units = []
+        for _ in range(k):
+            while True:
+                c = G.fsphere(rng, dim)
+                if c[0] < 0.8:
+                    break
+            units.append({"ideal": c, "ref": G.fball(rng, dim, 0.9), "t": [rng.uniform(0, 2 * math.pi) for _ in range(2)]})
+        yield {"dim": dim, "units": units, "degrees": rng.random() < 0.5}
+
+
+def run_o_horo_comp(inp):
+    dim, k = inp["dim"], len(inp["units"])
+    C = np.array([[1.0] + u["ideal"] for u in inp["units"]])
+    Rf = np.array(H.Point(np.array([u["ref"] for u in inp["units"]]), model="klein").proj_data, dtype=float)
+    hs = H.Horosphere(H.IdealPoint(C.copy()), H.Point(Rf.copy()))
+    out = {"k": k, "models": {}}
+    for model in ("poincare", "halfspace"):
+        ctr, rad = hs.sphere_parameters(model)
+        ctr, rad = np.array(ctr, dtype=float), np.array(rad, dtype=float)
+        if list(ctr.shape) != [k, dim] or list(rad.shape) != [k]:
+            out["models"][model] = {"shape": [list(ctr.shape), list(rad.shape)]}
+            continue
+        rc = np.array(H.Point(Rf.copy()).coords(model), dtype=float)
+        ic = np.array(H.Point(C.copy()).coords(model), dtype=float)
+        through = np.abs(np.linalg.norm(rc - ctr, axis=-1) - rad)
+        touch = np.abs(np.linalg.norm(ic - ctr, axis=-1) - rad)
+        tang = np.abs(np.linalg.norm(ctr, axis=-1) + rad - 1) if model == "poincare" else np.abs(ctr[:, -1] - rad)
+        out["models"][model] = {"worst": float(np.max(np.maximum(np.maximum(through, touch), tang) / (1 + rad) ** 2))}
+    if dim == 2:
+        ctr, rad = hs.sphere_parameters("poincare")
+        ctr, rad = np.array(ctr, dtype=float), np.array(rad, dtype=float)
+        if list(ctr.shape) == [k, 2]:
+            P1, P2 = [], []
+            for j, u in enumerate(inp["units"]):
+                t0 = math.atan2(u["ideal"][1], u["ideal"][0])
+                a = [t0 + 0.6 + t * (2 * math.pi - 1.2) / (2 * math.pi) for t in u["t"]]
+                P1.append(ctr[j] + rad[j] * np.array([math.cos(a[0]), math.sin(a[0])]))
+                P2.append(ctr[j] + rad[j] * np.array([math.cos(a[1]), math.sin(a[1])]))
+            arc = H.HorosphereArc(H.IdealPoint(C.copy()), H.Point(np.array(P1), model="poincare"), H.Point(np.array(P2), model="poincare"))
+            for model in ("poincare", "halfspace"):
+                ac, ar, th = arc.circle_parameters(model=model, degrees=inp["degrees"])
+                ac, ar = np.array(ac, dtype=float), np.array(ar, dtype=float)
+                th = np.array(th, dtype=float) * (math.pi / 180 if inp["degrees"] else 1.0)
+                if list(th.shape) != [k, 2]:
+                    out["models"]["arc_" + model] = {"shape": list(th.shape)}
+                    continue
+                e = np.array(arc.endpoint_coords(model), dtype=float)
+                ic = np.array(H.Point(C.copy()).coords(model), dtype=float)
+                worst_end, worst_side = 0.0, 0.0
+                for j in range(k):
+                    pts, _ = _arc_points(ac[j], float(ar[j]), th[j], 9)
+                    sc = (1 + ar[j]) ** 2
+                    worst_end = max(worst_end, _ends_err(pts, e[j]) / sc)
+                    worst_side = max(worst_side, (min(np.linalg.norm(x - ic[j]) for x in e[j]) - min(np.linalg.norm(q - ic[j]) for q in pts)) / sc)
+                out["models"]["arc_" + model] = {"ends": worst_end, "side": float(worst_side)}
+    return out
+
+
+def judge_o_horo_comp(inp, obs, lr):
+    tags = {"dim": inp["dim"], "k": len(inp["units"]), "composite": True, "square": len(inp["units"]) == inp["dim"]}
+    if "exc" in obs:
+        return {"expected": "parameters for every horosphere", "observed": obs, "tags": dict(tags, exc=obs["exc"])}
+    for name, o in obs["models"].items():
+        if "shape" in o:
+            return {"expected": "one centre / radius / angle pair per horosphere", "observed": o, "tags": dict(tags, model=name, what="shape")}
+        if "worst" in o and not o["worst"] <= 1e-6:
+            return {"expected": "every unit: sphere through its reference point, tangent to the boundary at its centre", "observed": o, "tags": dict(tags, model=name)}
+        if "ends" in o and not (o["ends"] <= 1e-5 and o["side"] <= 1e-5):
+            return {"expected": "every unit: arc between its endpoints avoiding its ideal centre", "observed": o, "tags": dict(tags, model=name, what="arc")}
+    return None
+
+
+# ---- histories: query, then move / overwrite the object, then query again -------------------------------------------
+# Every answer must depend only on the object's CURRENT data: after each step the queries are compared with those of a
+# fresh object built from a copy of the current data.
+H_KINDS = ["segment", "geodesic", "hyperplane", "subspace", "horosphere"]
+H_OPS = ["query", "query", "transform", "transform_apply", "setitem", "set", "flatten", "getitem"]
+
+
+def _h_unit(rng, kind, dim):
+    if kind == "segment":
+        while True:
+            k1, k2 = G.fball(rng, dim, 0.9), G.fball(rng, dim, 0.9)
+            if np.linalg.norm(np.array(k1) - np.array(k2)) > 0.2 and np.linalg.norm(np.cross(np.array(k1 + [0] * (3 - dim))[:3], np.array(k2 + [0] * (3 - dim))[:3])) > 0.03:
+                return [[1.0] + k1, [1.0] + k2]
+    if kind == "geodesic":
+        while True:
+            k1, k2 = G.fsphere(rng, dim), G.fsphere(rng, dim)
+            if np.linalg.norm(np.array(k1) - np.array(k2)) > 0.4 and np.linalg.norm(np.array(k1) + np.array(k2)) > 0.4:
+                return [[1.0] + k1, [1.0] + k2]
+    if kind == "hyperplane":
+        while True:
+            d = np.array([rng.gauss(0, 0.4)] + [rng.gauss(0, 1) for _ in range(dim)])
+            if G.mink(d, d) > 0.4 and abs(d[0]) > 0.05:
+                return d.tolist()
+    if kind == "subspace":
+        while True:
+            ks = np.array([G.fsphere(rng, dim) for _ in range(dim)])
+            T = ks[1:] - ks[0]
+            if np.linalg.svd(T, compute_uv=False)[-1] > 0.4:
+                foot = ks[0] - ks[0] @ np.linalg.pinv(T) @ T
+                if 0.2 < np.linalg.norm(foot) < 0.9:
+                    return [[1.0] + k.tolist() for k in ks]
+    if kind == "horosphere":
+        return [[1.0] + G.fsphere(rng, dim), [1.0] + G.fball(rng, dim, 0.8)]
+
+
+def gen_o_hist(rng, n):
+    for _ in range(n):
+        dim = rng.choice([2, 2, 3])
+        kind = rng.choice(H_KINDS)
+        cnt = rng.choice([0, 0, 2, 3])          # 0: a single object
+        units = [_h_unit(rng, kind, dim) for _ in range(max(cnt, 1))]
+        steps = [{"op": "query"}]
+        for _ in range(rng.randint(3, 6)):
+            op = rng.choice(H_OPS)
+            st = {"op": op}
+            if op in ("transform", "transform_apply"):
+                st["g"] = G.float_iso(rng, dim, k=2, tmax=0.7).tolist()
+            elif op in ("setitem", "set"):
+                st["unit"] = _h_unit(rng, kind, dim)
+                st["i"] = rng.randrange(max(cnt, 1))
+            elif op == "getitem":
+                st["i"] = rng.randrange(max(cnt, 1))
+            steps.append(st)
+        steps.append({"op": "query"})
+        yield {"dim": dim, "kind": kind, "cnt": cnt, "units": units, "steps": steps, "degrees": rng.random() < 0.5}
+
+
+def _h_build(kind, data):
+    data = np.array(data, dtype=float)
+    if kind == "segment":
+        return H.Segment(data.copy())
+    if kind == "geodesic":
+        return H.Geodesic(data.copy())
+    if kind == "hyperplane":
+        return H.Hyperplane(data.copy())
+    if kind == "subspace":
+        return H.Subspace(data.copy())
+    return H.Horosphere(data.copy())
+
+
+def _h_fresh(kind, obj):
+    """a new object of the same class from a copy of the current data (and nothing else)"""
+    cls = {"segment": H.Segment, "geodesic": H.Geodesic, "hyperplane": H.Hyperplane, "subspace": H.Subspace, "horosphere": H.Horosphere}[kind]
+    return cls(np.array(obj.proj_data, dtype=float).copy())
+
+
+def _rows_sorted(a):
+    """an ideal basis is an unordered set of points: sort the rows of every unit"""
+    a = np.array(a, dtype=float)
+    flat = a.reshape((-1,) + a.shape[-2:]).copy()
+    for j in range(len(flat)):
+        flat[j] = np.array(sorted(np.round(flat[j], 9).tolist()))
+    return flat.reshape(a.shape)
+
+
+def _h_query(kind, obj, dim, degrees):
+    out = []
+    for model in ("poincare", "halfspace"):
+        c, r = obj.sphere_parameters(model)
+        out += [np.array(c, dtype=float), np.array(r, dtype=float)]
+        if kind in ("segment", "geodesic") and dim == 2:
+            c2, r2, th = obj.circle_parameters(degrees=degrees, model=model)
+            out += [np.array(c2, dtype=float), np.array(r2, dtype=float), np.array(th, dtype=float)]
+        if kind != "horosphere":
+            out.append(_rows_sorted(obj.ideal_basis_coords(model)))
+    if kind == "segment":
+        out.append(_rows_sorted(obj.ideal_endpoint_coords("klein")))
+    return out
+
+
+def run_o_hist(inp):
+    dim, kind, cnt = inp["dim"], inp["kind"], inp["cnt"]
+    if kind == "hyperplane":
+        obj = H.Hyperplane(np.array(inp["units"] if cnt else inp["units"][0]), normals_only=True)
+    else:
+        obj = _h_build(kind, inp["units"] if cnt else inp["units"][0])
+    log = []
+    for k, st in enumerate(inp["steps"]):
+        op = st["op"]
+        if op == "query":
+            got = _h_query(kind, obj, dim, inp["degrees"])
+            want = _h_query(kind, _h_fresh(kind, obj), dim, inp["degrees"])
+            ok = len(got) == len(want) and all(a.shape == b.shape and np.all(np.abs(a - b) <= 2e-5 * (1 + np.max(np.abs(b)))) for a, b in zip(got, want))
+            # the answer also has to be right in itself: the defining points lie on the reported Poincare sphere
+            c, r = got[0], got[1]
+            if kind == "horosphere":
+                pts = np.array(H.Point(np.array(obj.proj_data, dtype=float)[..., 1:, :].copy()).coords("poincare"), dtype=float)
+            elif kind == "segment":
+                pts = np.array(obj.endpoint_coords("poincare"), dtype=float)
+            else:
+                pts = np.array(obj.ideal_basis_coords("poincare"), dtype=float)
+            res = float(np.max(np.abs(np.linalg.norm(pts - np.expand_dims(c, -2), axis=-1) - np.expand_dims(r, -1)) / (1 + np.expand_dims(r, -1))))
+            log.append({"k": k, "op": op, "same_as_fresh": bool(ok), "on_sphere": res})
+        elif op == "transform":
+            obj = H.Isometry(np.array(st["g"])) @ obj
+        elif op == "transform_apply":
+            obj = H.Isometry(np.array(st["g"])).apply(obj)
+        elif op == "flatten":
+            obj = obj.flatten_to_unit()
+        elif op == "getitem":
+            if cnt and len(obj.shape) >= 1:
+                obj = obj[st["i"] % obj.shape[0]:][:2]
+        elif op == "setitem":
+            if cnt and len(obj.shape) >= 1:
+                new = H.Hyperplane(np.array(st["unit"])) if kind == "hyperplane" else _h_build(kind, st["unit"])
+                obj[st["i"] % obj.shape[0]] = new
+        elif op == "set":
+            new = H.Hyperplane(np.array(st["unit"])) if kind == "hyperplane" else _h_build(kind, st["unit"])
+            if len(obj.shape) == 0:
+                obj.set(np.array(new.proj_data, dtype=float).copy())
+    return {"log": log}
+
+
+def judge_o_hist(inp, obs, lr):
+    ops = [st["op"] for st in inp["steps"]]
+    tags = {"kind": inp["kind"], "dim": inp["dim"], "composite": bool(inp["cnt"])}
+    if "exc" in obs:
+        return {"expected": "history runs", "observed": obs, "tags": dict(tags, exc=obs["exc"], ops=ops[:7])}
+    for e in obs["log"]:
+        if not (e["same_as_fresh"] and e["on_sphere"] <= 1e-5):
+            before = ops[:e["k"]]
+            return {"expected": "queries depend only on the current data (same as a fresh object), defining points on the reported sphere", "observed": e,
+                    "tags": dict(tags, after=[o for o in before if o != "query"][-2:], queried_before=before.count("query") > 0)}
+    return None
+
+
 CLAUSES = [
     Clause("ideal_corr", "corr", gen_ideal, run_ideal, judge_ideal, lean=lean_ideal, site="hyperbolic.Segment._compute_aux_data",
            budget={"quick": 120, "thorough": 3000}, what="Segment ideal endpoints vs Lean segmentIdeal over Q (dims 2-4, Klein-normalised and rescaled representatives)"),
@@ -791,8 +1106,18 @@ CLAUSES = [
            budget={"quick": 120, "thorough": 4000},
            what="array-valued segments and geodesics (2-8 units, shapes rank 1-2, dims 2-4, both models, degrees/radians), many units whose arc crosses "
                 "angle 0 seen from the circle centre: every unit's sphere and angle pair must describe that unit"),
+    Clause("history_oracle", "oracle", gen_o_hist, run_o_hist, judge_o_hist, site="hyperbolic.Subspace.ideal_basis_coords",
+           budget={"quick": 150, "thorough": 5000},
+           what="histories on Segment / Geodesic / Hyperplane / Subspace / Horosphere (single and composite): query, then iso @ obj, iso.apply, obj[i] = ..., "
+                "set(...), flatten_to_unit, slicing, then query again; every query equals that of a fresh object with the same data and is right in itself"),
+    Clause("polygon_oracle", "oracle", gen_o_polygon, run_o_polygon, judge_o_polygon, site="hyperbolic.Polygon.circle_parameters",
+           budget={"quick": 80, "thorough": 2500},
+           what="Polygon.circle_parameters (single and composite polygons, 3-7 vertices, both models, degrees/radians, flatten on/off): same as the edge "
+                "segments' parameters, and every edge's arc joins consecutive vertices inside the model along the hyperbolic segment"),
     Clause("horosphere_oracle", "oracle", gen_o_horo, run_o_horo, judge_o_horo, site="hyperbolic.Horosphere.sphere_parameters",
            budget={"quick": 150, "thorough": 5000}, what="horosphere sphere through the reference point, tangent at the centre (dims 2-4, both models); HorosphereArc angles (dim 2)"),
+    Clause("horosphere_composite_oracle", "oracle", gen_o_horo_comp, run_o_horo_comp, judge_o_horo_comp, site="hyperbolic.Horosphere.sphere_parameters",
+           budget={"quick": 80, "thorough": 2500}, what="arrays of 2-5 horospheres (including exactly dim of them) and, in dim 2, arrays of horosphere arcs: every unit's sphere and arc"),
     Clause("subspace_oracle", "oracle", gen_o_subspace, run_o_subspace, judge_o_subspace, site="hyperbolic.Subspace.sphere_parameters",
            budget={"quick": 150, "thorough": 5000}, what="subspace spheres contain the ideal points, orthogonal to the boundary: subspace dimension 1..n-1, n = 2..4, composite shapes"),
 ]
